@@ -36,10 +36,13 @@ def val64(v):
     raise Unsupported('payload %r' % (v,))
 
 
-def fold_seq(items, init=0):
+def fold_seq(items, init=0, ex=None):
     acc = z3.BitVecVal(init, 64)
     for it in items:
-        acc = UF.F(acc, val64(it))
+        if ex is not None and ex.env.get('native'):
+            acc = acc * 31 + val64(it) + 1        # the function the native driver uses (replay/SPEC.md)
+        else:
+            acc = UF.F(acc, val64(it))
     return acc
 
 
@@ -60,9 +63,10 @@ def fold_harness(w, iters, max_len, kinds='ITW'):
 
     def h(ex):
         script = hlib.gen_script(ex, iters, max_len, kinds)
-        op = build_fold(ex, w, hlib.Upstream(script))
-        holder = [op]
-        out = hlib.drive(ex, nxt, holder, len(script) + 4)
+        if ex.env.get('native'):
+            out = hlib.native_operator(ex, 'fold', [], script)
+        else:
+            out = hlib.drive(ex, nxt, [build_fold(ex, w, hlib.Upstream(script))], len(script) + 4)
         hlib.check_grammar(ex, out, iters, 'Fold output')          # C05
         hlib.check_wm_contract(ex, out, 'Fold output')             # C06
         ins, outs = hlib.split_iterations(script), hlib.split_iterations(out)
@@ -78,7 +82,7 @@ def fold_harness(w, iters, max_len, kinds='ITW'):
                 raise Violation('fold emitted %d results for one iteration' % len(od), hlib._wit(ex),
                                 {'output': [repr(x) for x in out]})
             res = od[0]
-            check(ex, res.fields[0].z() == fold_seq([e.fields[0] for e in d]),
+            check(ex, res.fields[0].z() == fold_seq([e.fields[0] for e in d], ex=ex),
                   'fold result differs from the sequential fold of the iteration', {'iteration': k})
             tss = [e.fields[1].v for e in d if e.variant == 'Timestamped']
             if tss:
@@ -103,7 +107,7 @@ def fold_tasks(tier, role):
 
 # ------------------------------------------------------------------------------------ KeyedFold
 
-def kv_payload(key_ty='u8', val_ty='u8'):
+def kv_payload(key_ty='u64', val_ty='u64'):
     def f(ex, k):
         return Agg('tuple', None, [ex.fresh_int(key_ty, 'k%d' % k), ex.fresh_int(val_ty, 'v%d' % k)])
     return f
@@ -133,9 +137,11 @@ def keyed_fold_harness(w, iters, max_len, kinds='ITW', hash_order='any'):
     def h(ex):
         ex.env['hash_order'] = hash_order
         script = hlib.gen_script(ex, iters, max_len, kinds, payload=kv_payload())
-        op = ex.call_function(new, [hlib.Upstream(script), Int('u64', 0), UF()])
-        holder = [op]
-        out = hlib.drive(ex, nxt, holder, len(script) + 4)
+        if ex.env.get('native'):
+            out = hlib.native_operator(ex, 'keyed_fold', [], script, keyed=True)
+        else:
+            op = ex.call_function(new, [hlib.Upstream(script), Int('u64', 0), UF()])
+            out = hlib.drive(ex, nxt, [op], len(script) + 4)
         hlib.check_grammar(ex, out, iters, 'KeyedFold output')
         hlib.check_wm_contract(ex, out, 'KeyedFold output')
         ins, outs = hlib.split_iterations(script), hlib.split_iterations(out)
@@ -154,7 +160,7 @@ def keyed_fold_harness(w, iters, max_len, kinds='ITW', hash_order='any'):
                     raise Violation('key has %d results in one iteration' % len(match), hlib._wit(ex),
                                     {'output': [repr(x) for x in out]})
                 res = match[0]
-                check(ex, res.fields[0].fields[1].z() == fold_seq([e.fields[0].fields[1] for e in els]),
+                check(ex, res.fields[0].fields[1].z() == fold_seq([e.fields[0].fields[1] for e in els], ex=ex),
                       'keyed fold result differs from the sequential fold of that key', {'iteration': k})
                 tss = [e.fields[1].v for e in els if e.variant == 'Timestamped']
                 if tss:
@@ -239,8 +245,10 @@ def count_window_harness(w, size, slide, iters, max_len):
         descr = ex.call_function(cw_new, [Int('usize', size), Int('usize', slide), exact])
         mgr = ex.call_function(build, [Ref([descr], 0), ListAcc()])
         script = hlib.gen_script(ex, iters, max_len, 'IT/iter', wm_contract=False)
-        holder = [mgr]
-        outs = drive_manager(ex, proc, holder, script)
+        if ex.env.get('native'):
+            outs = hlib.native_manager(ex, 'mgr_count', [size, slide, int(exact)], script)
+        else:
+            outs = drive_manager(ex, proc, [mgr], script)
         # oracle: per iteration, groups [jS, jS+N) emitted at their N-th element
         pos = 0
         it_elems = []
@@ -297,4 +305,221 @@ def count_window_tasks(tier, role):
                               '(all-Item / all-Timestamped / alternating, payload u8 + timestamps i64 symbolic), '
                               'accumulator records its elements' % (n, s, ln), role=role,
                        opts={'covers': ['full_window']}, budget=150))
+    return ts
+
+
+def id_payload(ex, k):
+    """concrete, pairwise distinct payloads: results can be matched to inputs by identity"""
+    return Int('u64', k)
+
+
+TS_BOUND = 1 << 40
+
+
+def bound_ts(ex, script, bound=TS_BOUND):
+    for e in script:
+        t = hlib.ts_of(e)
+        if t is not None and not t.concrete:
+            ex.assume(z3.And(t.v > -bound, t.v < bound))
+
+
+def event_time_harness(w, size, slide, iters, max_len, base=None):
+    sliding = w.impls[(None, 'EventTimeWindow')]['sliding'][0]
+    build = w.impls[('WindowDescription', 'EventTimeWindow')]['build'][0]
+    proc = w.impls[('WindowManager', 'EventTimeWindowManager')]['process'][0]
+    hlib.check_se_table(w)
+    maxcov = -(-size // slide)
+
+    def h(ex):
+        descr = ex.call_function(sliding, [Int('i64', size), Int('i64', slide)])
+        mgr = ex.call_function(build, [Ref([descr], 0), ListAcc()])
+        script = hlib.gen_script(ex, iters, max_len, 'TW', payload=id_payload,
+                                 ts_span=(2 * size + 2) if base is None else (base, 2 * size + 2))
+        if ex.env.get('native'):
+            outs = hlib.native_manager(ex, 'mgr_event_time', [size, slide], script)
+        else:
+            outs = drive_manager(ex, proc, [mgr], script)
+        sx = lambda: {'size': size, 'slide': slide, 'script': [repr(e) for e in script],
+                      'results': [[repr(r) for r in rs] for _, rs in outs]}
+        # per iteration bookkeeping
+        elems = {}        # payload id -> ts
+        wms = []          # watermarks seen so far in the iteration
+        cover_cnt = {}
+        for i, el in enumerate(script):
+            res = outs[i][1]
+            if el.variant == 'Timestamped':
+                elems[el.fields[0].v] = el.fields[1]
+                cover_cnt[el.fields[0].v] = 0
+                if res:
+                    raise Violation('event-time window emitted a result on a data element', hlib._wit(ex), sx())
+            for r in res:
+                if r.variant != 'Timestamped':
+                    raise Violation('event-time result without timestamp', hlib._wit(ex), sx())
+                end = r.fields[1]
+                items = r.fields[0].items
+                if not items:
+                    raise Violation('empty event-time window result', hlib._wit(ex), sx())
+                ids = [x.v for x in items]
+                if len(set(ids)) != len(ids):
+                    raise Violation('element used twice in one window result', hlib._wit(ex), sx())
+                for x in ids:
+                    if x not in elems:
+                        raise Violation('window result contains an element of another iteration', hlib._wit(ex), sx())
+                    cover_cnt[x] += 1
+                    t = elems[x]
+                    check(ex, z3.And(t.v >= end.v - size, t.v < end.v),
+                          'window result mixes elements outside one interval of the window length', sx)
+                # firing time
+                if el.variant == 'Watermark':
+                    hlib.cover(ex, 'fired_on_watermark')
+                    check(ex, end.v <= el.fields[0].v,
+                          'window fired before a watermark reached its end', sx)
+                for wv in wms:
+                    check(ex, end.v >= wv.v,
+                          'window result emitted later than the first watermark beyond its end', sx)
+            if el.variant == 'Watermark':
+                wms.append(el.fields[0])
+            if el.variant in ('FlushAndRestart', 'Terminate'):
+                for x, n in cover_cnt.items():
+                    if n < 1:
+                        raise Violation('a non-late element is in no window result (lost)', hlib._wit(ex), sx())
+                    if n > maxcov:
+                        raise Violation('an element is in %d window results (max %d)' % (n, maxcov),
+                                        hlib._wit(ex), sx())
+                elems, wms, cover_cnt = {}, [], {}
+        return sx()
+    return h
+
+
+def event_time_tasks(tier, role):
+    ts = []
+    grid = [(2, 2), (3, 3), (2, 1), (3, 2), (4, 2)] if tier == 'quick' else \
+        [(n, s) for n in (1, 2, 3, 4, 5) for s in range(1, n + 1)]
+    bases = [-3, 1000] if tier == 'quick' else [-1000, -3, 1000, None]
+    for n, s in grid:
+        for b in bases:
+            ln = (4 if tier == 'quick' else 5) if b is not None else 3
+            ts.append(Task('event_time_z%d_s%d_b%s' % (n, s, b), 'event_time_harness',
+                           {'size': n, 'slide': s, 'iters': 1, 'max_len': ln, 'base': b},
+                           bounds='EventTimeWindowManager size=%d slide=%d; 1 iteration x <=%s elements, each '
+                                  'Timestamped or Watermark in any order; timestamps symbolic i64 in '
+                                  '[B, B+2*size+2) with B=%s, watermark contract assumed on the input' %
+                                  (n, s, ln, 'symbolic, |B| < 2^40' if b is None else b), role=role,
+                           opts={'covers': ['fired_on_watermark']}, budget=200))
+    return ts
+
+
+# ------------------------------------------------------------------------------------ WindowOperator
+
+def build_window_op(ex, w, up, kind, p):
+    """WindowOperator over `up` with the manager of the given window description and a recording accumulator"""
+    from mirsym.models_coll import MapModel, DequeModel
+    if kind == 'count':
+        new = w.impls[(None, 'CountWindow')]['new'][0]
+        descr = ex.call_function(new, [Int('usize', p['size']), Int('usize', p['slide']), p.get('exact', True)])
+        build = w.impls[('WindowDescription', 'CountWindow')]['build'][0]
+    elif kind == 'event_time':
+        new = w.impls[(None, 'EventTimeWindow')]['sliding'][0]
+        descr = ex.call_function(new, [Int('i64', p['size']), Int('i64', p['slide'])])
+        build = w.impls[('WindowDescription', 'EventTimeWindow')]['build'][0]
+    else:
+        raise Unsupported(kind)
+    init = ex.call_function(build, [Ref([descr], 0), ListAcc()])
+    phantom = Agg('struct', 'PhantomData', [], [])
+    kwm = hlib.mk_struct(w, 'KeyedWindowManager', windows=MapModel('HashMap'), init=init, _in=phantom, _out=phantom)
+    wnew = w.impls[(None, 'WindowOperator')]['new'][0]
+    return ex.call_function(wnew, [up, 'verif-window', kwm])
+
+
+def keyed_id_payload(nkeys):
+    def f(ex, k):
+        key = ex.choose(nkeys, 'key') if nkeys > 1 else 0
+        return Agg('tuple', None, [Int('u64', key), Int('u64', k)])
+    return f
+
+
+def window_op_harness(w, kind, p, iters, max_len, nkeys=2, base=1000):
+    nxt = w.impls[('Operator', 'WindowOperator')]['next'][0]
+    hlib.check_se_table(w)
+
+    def h(ex):
+        ex.env['hash_order'] = 'any'
+        kinds = 'TW' if kind == 'event_time' else 'IT/iter'
+        span = (base, 2 * p['size'] + 2) if kind == 'event_time' else None
+        script = hlib.gen_script(ex, iters, max_len, kinds, payload=keyed_id_payload(nkeys), ts_span=span)
+        if ex.env.get('native'):
+            prm = [p['size'], p['slide']] + ([int(p.get('exact', True))] if kind == 'count' else [])
+            out = hlib.native_operator(ex, 'winop_' + kind, prm, script, keyed=True)
+        else:
+            op = build_window_op(ex, w, hlib.Upstream(script), kind, p)
+            out = hlib.drive(ex, nxt, [op], 4 * len(script) + 4)
+        sx = lambda: {'kind': kind, 'params': p, 'script': [repr(e) for e in script],
+                      'output': [repr(e) for e in out]}
+        hlib.check_grammar(ex, out, iters, 'WindowOperator output')
+        hlib.check_wm_contract(ex, out, 'WindowOperator output')
+        ins, outs = hlib.split_iterations(script), hlib.split_iterations(out)
+        for k, (i_it, o_it) in enumerate(zip(ins, outs)):
+            owner = {e.fields[0].fields[1].v: e.fields[0].fields[0].v for e in data_items(i_it)}
+            per_key_in = {}
+            for e in data_items(i_it):
+                per_key_in.setdefault(e.fields[0].fields[0].v, []).append(e)
+            per_key_out = {}
+            for r in data_items(o_it):
+                key = r.fields[0].fields[0].v
+                items = r.fields[0].fields[1].items
+                for x in items:
+                    if x.v not in owner:
+                        raise Violation('window result contains an element of another iteration', hlib._wit(ex), sx())
+                    if owner[x.v] != key:
+                        raise Violation('window result mixes elements of different keys', hlib._wit(ex), sx())
+                per_key_out.setdefault(key, []).append(r)
+            if len(per_key_in) > 1:
+                hlib.cover(ex, 'two_keys')
+            if kind == 'count':
+                size, slide, exact = p['size'], p['slide'], p.get('exact', True)
+                for key, els in per_key_in.items():
+                    want = [els[j:j + size] for j in range(0, len(els) - size + 1, slide)]
+                    nfull = len(want)
+                    if not exact and nfull * slide < len(els):
+                        want.append(els[nfull * slide:])
+                    got = per_key_out.get(key, [])
+                    if len(got) != len(want):
+                        raise Violation('count windows of a key: %d results, expected %d' % (len(got), len(want)),
+                                        hlib._wit(ex), sx())
+                    for r, grp in zip(got, want):
+                        if [x.v for x in r.fields[0].fields[1].items] != [g.fields[0].fields[1].v for g in grp]:
+                            raise Violation('count window of a key is not the expected group', hlib._wit(ex), sx())
+                for key in per_key_out:
+                    if key not in per_key_in:
+                        raise Violation('result for a key without input', hlib._wit(ex), sx())
+            if kind == 'event_time':
+                cnt = {}
+                for key, rs in per_key_out.items():
+                    for r in rs:
+                        for x in r.fields[0].fields[1].items:
+                            cnt[x.v] = cnt.get(x.v, 0) + 1
+                maxcov = -(-p['size'] // p['slide'])
+                for e in data_items(i_it):
+                    n = cnt.get(e.fields[0].fields[1].v, 0)
+                    if n < 1 or n > maxcov:
+                        raise Violation('element is in %d event-time window results of its key (1..%d expected)' %
+                                        (n, maxcov), hlib._wit(ex), sx())
+        return sx()
+    return h
+
+
+def window_op_tasks(tier, role, kinds=('count', 'event_time')):
+    ts = []
+    cfgs = []
+    if 'count' in kinds:
+        cfgs += [('count', {'size': 2, 'slide': 1, 'exact': True}), ('count', {'size': 3, 'slide': 2, 'exact': False})]
+    if 'event_time' in kinds:
+        cfgs += [('event_time', {'size': 2, 'slide': 2}), ('event_time', {'size': 3, 'slide': 2})]
+    ln = [3, 1] if tier == 'quick' else [4, 2]
+    for kind, p in cfgs:
+        nm = 'winop_%s_%s' % (kind, '_'.join('%s%s' % (k[0], v) for k, v in sorted(p.items())))
+        ts.append(Task(nm, 'window_op_harness', {'kind': kind, 'p': p, 'iters': 2, 'max_len': ln},
+                       bounds='WindowOperator::next over %s windows %s driven to Terminate; 2 keys, 2 iterations x '
+                              '<=%s elements, HashMap order arbitrary' % (kind, p, ln), role=role,
+                       opts={'covers': ['two_keys']}, budget=200))
     return ts
